@@ -348,7 +348,7 @@ def run(tier: str, seed: int) -> int:
         'evaluations': len(picked), 'distinct_nontrivial': nontriv,
         'rule': 'cases = every terminal state of MC_Dense: subscript string (blocks <= 3 tokens, leaf/out <= 2 tokens over '
                 'i,j,k,h and one ellipsis per operand; quick: ellipsis last only) x letter sizes (pairwise different / '
-                'all 2) x ellipsis rank of the blocks x pytree mode, plus 7 longer strings from the docstrings; replayed '
+                'all 2) x ellipsis rank of the blocks x pytree mode, plus 12 longer strings (from the docstrings, and with two batch items in equal / different order); replayed '
                 '= all (thorough) or every stratum of (operand lengths, letters, repetition, ellipsis placement, '
                 'predicted outcome, sizes) (quick); non-trivial = the string is a valid einsum on the shapes, so the '
                 'operator exists and its transpose is judged; distinct by canonical JSON of the case',
